@@ -4,7 +4,7 @@ traces (SMACK skips, early/missing/repeated CCS, bad/plaintext Finished, data be
 Tape layout = order of draws in prop() of props/C06/seq12.cc (random target):
   victim_server, sv, cauth, ems-index, resumed(0 = resumed!), seed hi, seed lo, nsel (1..5 one op, 6..9 two ops), ops..., trailer (0,1 = one record), vary (0)"""
 import os
-O_DEL, O_DUP, O_SWAP, O_RETAG, O_SUBST, O_INJECT, O_FLIPFIN, O_PROT, O_MODE = range(9)
+O_DEL, O_DUP, O_SWAP, O_RETAG, O_SUBST, O_INJECT, O_FLIPFIN, O_PROT, O_MODE, O_CCSBODY = range(10)
 T = dict(HR=0, CH=1, SH=2, NST=3, CERT=4, CERT0=5, SKE=6, CR=7, SHD=8, CV=9, CKE=10, FIN=11, CCS=12, APP=13, WARN=14, UNK=15)
 RSA_GCM, ECDHE_GCM, RSA_CBC256, ECDHE_CBC256, RSA_CBC_11, ECDHE_CBC_11 = range(6)
 
@@ -39,6 +39,9 @@ CASES = {
     'srv-unrequested-certificate': tape(True, RSA_GCM, False, [op(O_INJECT, 1, T['CERT'])]),
     'srv-hello-request-to-server': tape(True, RSA_GCM, False, [op(O_INJECT, 1, T['HR'])]),
     'srv-resumed-full-trace': tape(True, RSA_GCM, False, [op(O_MODE, 2)], resumed=True),
+    'srv-ccs-with-trailing-byte': tape(True, RSA_GCM, False, [op(O_CCSBODY, 0)]),
+    'srv-ccs-with-trailing-bytes': tape(True, ECDHE_CBC256, False, [op(O_CCSBODY, 2)]),
+    'srv-ccs-value-2': tape(True, RSA_GCM, False, [op(O_CCSBODY, 3)]),
     'srv-tls11-without-ccs': tape(True, RSA_CBC_11, False, [op(O_DEL, 2)]),
     # client victim, ECDHE: SH0 CERT1 SKE2 SHD3 CCS4 FIN5
     'cli-skip-server-key-exchange': tape(False, ECDHE_GCM, False, [op(O_DEL, 2)]),
@@ -52,6 +55,7 @@ CASES = {
     'cli-appdata-before-finished': tape(False, ECDHE_GCM, False, [op(O_INJECT, 5, T['APP'])]),
     'cli-early-ccs-finished': tape(False, ECDHE_GCM, False, [op(O_DEL, 3)]),
     'cli-second-server-hello': tape(False, RSA_GCM, False, [op(O_DUP, 0, 0)]),
+    'cli-ccs-with-trailing-byte': tape(False, ECDHE_GCM, False, [op(O_CCSBODY, 1)]),
     'cli-repeated-ccs': tape(False, RSA_GCM, False, [op(O_DUP, 3, 0)]),
     # client victim with CertificateRequest: SH0 CERT1 SKE2 CR3 SHD4 CCS5 FIN6
     'cli-repeated-certificate-request': tape(False, ECDHE_GCM, True, [op(O_DUP, 3, 1)]),
